@@ -23,17 +23,16 @@ def had_credentials_definition(prog, chk, rule="request_had_credentials"):
 
 def run(prog, chk, tier):
     chk.explanation = (
-        "handle_stun's decision table (all 32 valuations of: is_response, request found, request_had_credentials, "
-        "remote_credentials set, validate_integrity result) extracted from MIR and compared with the spec: a response to "
-        "a sealed request is delivered only on the path where remote_credentials is Some(c) and "
-        "msg.validate_integrity(c) took its Ok arm (argument provenance = the remote_credentials field); every other "
-        "such path re-inserts the unmodified taken state exactly once, returns Drop and does not validate the peer. "
-        "request_had_credentials is written once, as has_attribute(0x0008) || has_attribute(0x001C). Correctness of "
-        "validate_integrity itself is C04.")
-    chk.trusted += ["rustc MIR", "HashMap semantics", "spec table in pylib/rules/agent.py"]
-    A.handle_stun_table(prog, chk)
-    A.taken_state_untouched(prog, chk)
-    A.take_outstanding_table(prog, chk)
+        "handle_stun decided from the abstract interpreter's return states, one row per state over the facts {is_response, "
+        "request outstanding under the message's transaction id, request_had_credentials of the request taken, "
+        "remote_credentials set, verdict of validate_integrity}: a response to a sealed request is delivered only in the "
+        "states where validate_integrity(msg, the remote_credentials field) was asked exactly once and answered Ok; in "
+        "every other such state the request taken is put back unmodified under the same key, Drop is returned and the "
+        "sender is not recorded as validated. request_had_credentials is has(MESSAGE-INTEGRITY) or "
+        "has(MESSAGE-INTEGRITY-SHA256) of the request handed to send and is never written again. Correctness of "
+        "validate_integrity itself is C04 (evaluated here as a premise).")
+    chk.trusted += ["rustc MIR", "HashMap semantics (model table)", "specification rows in pylib/rules/agent_e2.py"]
+    AE.handle_stun(prog, chk)
     # "validates under them": the wiring of validate_integrity (which attribute, which bytes, which key, whose verdict)
     # is decided by C04 and evaluated here as a premise
     from rules.c01 import sub_check
@@ -42,10 +41,4 @@ def run(prog, chk, tier):
            detail="failing: %s" % bad, how="C04 rule instances re-evaluated on this tree")
     had_credentials_definition(prog, chk)
     # remote_credentials: who may write
-    accs = field_accesses(prog, A.AGENT_V, "remote_credentials")
-    for a in accs:
-        fn = re.sub(r"::\{closure#\d+\}", "", a["body"])
-        ok = (a["how"] in ("ref", "copy", "discr") or
-              (a["how"] in ("write", "drop") and fn.endswith("StunAgent::set_remote_credentials")))
-        chk.ob("who-may-access", "remote_credentials|%s|%s" % (fn.split("::", 2)[-1], a["how"]), ok, a["where"])
-    chk.floor("remote_credentials-sites", len(accs), 3)
+    AE.touchers(prog, chk, "who-may-access", A.AGENT_V, "remote_credentials", [r"StunAgent::"], [r"StunAgent::set_remote_credentials$"], 3)
